@@ -21,6 +21,8 @@ DECLARED = {
     "SC": dict(kind="struct", fixed=None, bounded=True),
     "SP": dict(kind="struct", fixed=5, bounded=True),   # padded string of 4 + char
     "SX": dict(kind="struct", fixed=13, bounded=True),  # 2 shorts + encoded string of 3 + bool:short + E:three + dummy char
+    "SW": dict(kind="struct", fixed=None, bounded=True),  # char + switch with a short in its case: no fixed size (switch)
+    "SK": dict(kind="struct", fixed=None, bounded=True),  # chunked section of char + short: no fixed size (chunked)
 }
 
 
